@@ -9,31 +9,31 @@ ROOT = os.path.dirname(os.path.dirname(os.path.abspath(__file__)))
 # id: (technique, level text, level note, design ref)
 T = {
     'C01': ('invariant monitor (tree_ok) after every step of generated operation histories',
-            'Exploration: the tree-integrity invariant (one parent = actual container, true path, lookup returns the node, no node twice, no dangling claim) is evaluated on the real objects after every step of thousands of generated histories over the whole List/Dict/Object mutator table with aliased, foreign-tree and invalid operands. Held = held on the histories counted in the evidence.',
+            'Exploration: the tree-integrity invariant (one parent = actual container, true path, lookup returns the node, no node twice, no dangling claim) is evaluated on the real objects after every step of thousands of generated histories over the whole List/Dict/Object mutator table with aliased, foreign-tree and invalid operands. Held = held on the histories counted in the evidence. Operands include the same node object at two places of one call and nodes of twin trees; values are also built through every public constructor form; typed parents with required keys make rejected calls leave real trees behind.',
             'CPython list/dict semantics; only public API observed; self-containing values not generated.', '4/C01'),
     'C02': ('reference-model monitor: built-in list/dict driven in lock-step',
-            'Exploration: differential execution of pg.List/pg.Dict without value spec against the built-in list/dict over generated operation histories; outcome (value or exception class), contents, order and every read path compared after every step.',
+            'Exploration: differential execution of pg.List/pg.Dict without value spec against the built-in list/dict over generated operation histories; outcome (value or exception class), contents, order and every read path compared after every step. Also containers of containers with multi-member batch rebinds from a common ancestor, every notification mode (the reference is the same with notification on or off), and the JSON object/string round trips as read paths.',
             'CPython list/dict are the reference; documented extensions modelled (MISSING deletes, rebind past end appends, Insertion, plain->symbolic).', '4/C02'),
     'C03': ('invariant monitor (schema_ok) after every step incl. rejected writes',
-            'Exploration: for typed Dict/List/Object the stored state is re-validated against its value spec after every valid or invalid write through every write path; rejected writes must raise TypeError/ValueError/KeyError and leave the target unchanged.',
+            'Exploration: for typed Dict/List/Object the stored state is re-validated against its value spec after every valid or invalid write through every write path; rejected writes must raise TypeError/ValueError/KeyError and leave the target unchanged. Independent domain clauses (ranges, enum membership, primitive types, None, frozen, sizes, undeclared keys, partiality by walking the members) do not rely on the library\'s own apply/is_partial; rejected operands are retried and must stay unchanged; the defaults declared by all model classes are snapshotted before and after every case.',
             'value_spec.apply on a plain deep copy is the acceptance oracle; type checking on.', '4/C03'),
     'C04': ('algebraic-law monitor over generated spec pairs and boundary values',
             'Exploration: idempotence of apply, acceptability of defaults, apply not mutating the spec, soundness of is_compatible and extend, each decided by calling the real apply on candidate values derived from both specs\' parameters.',
             'acceptance decided by the library\'s own apply on deep copies; Str regex excluded as documented.', '4/C04'),
     'C05': ('round-trip law monitor + path->last-value reference model for persistence histories',
-            'Exploration: JSON (object and string form), pickle and deepcopy round trips over generated values with equality, type, hash, tree and schema monitors; save/load/append histories over both file systems against a dict model.',
+            'Exploration: JSON (object and string form), pickle and deepcopy round trips over generated values with equality, type, hash, tree and schema monitors; save/load/append histories over both file systems against a dict model. Persistence histories keep reader handles open across later operations and read them piecewise.',
             'pg.eq/pg.hash as equality observers (their own laws are C06).', '4/C05'),
     'C06': ('exhaustive pair/triple law evaluation over colliding value pools',
-            'Exploration: reflexivity, symmetry, transitivity, ne, hash consistency, operator agreement, trichotomy, gt/lt duality, transitivity of lt, sorting never raises - evaluated on all pairs/triples of generated pools.',
+            'Exploration: reflexivity, symmetry, transitivity, ne, hash consistency, operator agreement, trichotomy, gt/lt duality, transitivity of lt, sorting never raises - evaluated on all pairs/triples of generated pools. A history phase mutates pool members in place through every write mode (incl. the silent ones) and re-evaluates eq/ne/lt/gt/hash/operators against twins rebuilt from a plain description.',
             'pools are generated to collide (equal values of different types, permuted dict keys, subclasses).', '4/C06'),
     'C07': ('law monitor at clone time + non-interference monitor over post-clone histories',
-            'Exploration: equality/class/spec/flag fidelity, tree and schema monitors, id-disjointness at clone time; then histories on one side with the JSON snapshot of the other side compared after every step.',
+            'Exploration: equality/class/spec/flag fidelity, tree and schema monitors, id-disjointness at clone time; then histories on one side with the JSON snapshot of the other side compared after every step. Clones are also taken inside scoped overrides, after derived-state getters were asked of the source, and values with extra public state (DNA metadata/userdata, functor arguments, DNASpec userdata) get histories over that state.',
             'to_json as the observation of the untouched side.', '4/C07'),
     'C08': ('expected-verdict model (innermost scope else object flag) vs every mutator',
-            'Exploration: every operation of the table is attempted at and below a protected node under all flag/scope stacks; must raise WritePermissionError and leave to_json unchanged, or succeed when the model says writable.',
+            'Exploration: every operation of the table is attempted at and below a protected node under all flag/scope stacks; must raise WritePermissionError and leave to_json unchanged, or succeed when the model says writable. Protection modes: sealed by flag, at construction, sealed then unsealed, nested scopes, accessor flags; operations are also issued at ancestors of the protected node with paths that end inside it; the expected verdict is derived from the configuration, not from the flags the library reports.',
             'operations issued with valid arguments so that protection is the only reason to refuse.', '4/C08'),
     'C09': ('event recorder at public extension points + expected-event calculator; freshness vs deserialized copy',
-            'Exploration: exactly-once, bottom-up, exact payload per receiver computed from written locations; derived facts compared with a freshly deserialized copy after every operation.',
+            'Exploration: exactly-once, bottom-up, exact payload per receiver computed from written locations; derived facts compared with a freshly deserialized copy after every operation. Between steps only a random subset of the derived-state getters is asked (so memos are partly populated), roots with three nested schema-bound containers are written mostly with notifications off, and suppressed structural list edits are followed by notified writes inside the moved elements.',
             'written locations are known to the harness by construction.', '4/C09'),
     'C10': ('tuple-of-keys reference model; identity-based visit log',
             'Exploration: parse/format round trip, path arithmetic vs tuple model, traversal completeness, flatten/canonicalize inverse, KeyPathSet vs python set model over generated keys and histories.',
@@ -42,31 +42,31 @@ T = {
             'Exploration, exhaustive over all space descriptions up to a size bound: iter_dna/space_size/next_dna/validate/binding/random_dna/Sweeping compared with an enumerator that shares no code with pg.geno; one-step corruptions must be rejected.',
             'the reference enumerator (decision-order DFS) is the oracle.', '4/C11'),
     'C12': ('round-trip and alignment law monitor over the view parameter product',
-            'Exploration: from_numbers/from_dict/from_json reconstruct the DNA for every view option; every DNA handed out by the library has the same views as one rebuilt from its raw numbers.',
+            'Exploration: from_numbers/from_dict/from_json reconstruct the DNA for every view option; every DNA handed out by the library has the same views as one rebuilt from its raw numbers. Half of the specs are assembled from library objects reused from donor specs (candidates, elements, clones, JSON copies at other positions); ids and decision points are compared with the reference map.',
             'DNA equality as implemented by the library on raw values.', '4/C12'),
     'C13': ('reference decoder from the template description; before/after template snapshots',
-            'Exploration: decode leaves no placeholder, equals reference decode, encode inverts decode, template unchanged, iteration yields space_size distinct values.',
+            'Exploration: decode leaves no placeholder, equals reference decode, encode inverts decode, template unchanged, iteration yields space_size distinct values. Typed fields with boundary bounds, Evolvable placeholders and decode/random_dna/encode histories in which every value handed out earlier is re-checked.',
             'templates are built from descriptions with distinguishable candidates.', '4/C13'),
     'C14': ('membership (genoref) + alignment + input snapshots + re-run determinism',
-            'Exploration: every shipped mutator/recombinator/selector and random operator expressions on generated spaces and populations.',
+            'Exploration: every shipped mutator/recombinator/selector and random operator expressions on generated spaces and populations. A seeded operator must not consume the global random module (state compared around every call); parents that conflict strongly on constrained multi-choices.',
             'operators are driven within their documented preconditions.', '4/C14'),
     'C15': ('two live instances side by side at every crash point (fault enumeration)',
-            'Fault enumeration: for each configuration every crash point k in 0..N with the last w feedbacks missing is executed; recovered vs uninterrupted state compared through public attributes and subsequent proposals.',
+            'Fault enumeration: for each configuration every crash point k in 0..N with the last w feedbacks missing is executed; recovered vs uninterrupted state compared through public attributes and subsequent proposals. The persisted history is handed to recover() in nine Iterable forms (incl. one-shot iterators); spaces with custom decision points whose sweep order is not lexicographic; every seeded configuration runs once with seed 0.',
             'history persisted through JSON; feedback in proposal order.', '4/C15'),
     'C16': ('client-boundary history recorder + offline checker under a deterministic sys.monitoring scheduler',
-            'Exploration over schedules: thousands of distinct statement-level interleavings of worker threads forced from outside; histories checked offline for ids 1..N once, one group per trial, exactly-once feedback, quiescent bookkeeping.',
+            'Exploration over schedules: thousands of distinct statement-level interleavings of worker threads forced from outside; histories checked offline for ids 1..N once, one group per trial, exactly-once feedback, quiescent bookkeeping. Two modes: the deterministic token scheduler (switches at statement boundaries, replayable) and a free-running real-thread cross-check (sees races inside one statement).',
             'switches only at LINE events of the instrumented modules; locks made cooperative via threading.Lock factories.', '4/C16'),
     'C17': ('nesting reference model + snapshot-before = snapshot-after restore law; per-thread models under the scheduler',
-            'Exploration: random well-nested programs of enter/exit events with exceptions over all context managers, single-threaded and interleaved on 2-4 threads.',
+            'Exploration: random well-nested programs of enter/exit events with exceptions over all context managers, single-threaded and interleaved on 2-4 threads. Programs also use the yielded object as documented inside its block, pass mutable arguments (checked unchanged and not aliased), refine dict-valued options at nested levels and call pg.view(**kwargs) as an implicit scope; threads run free, in lock-step and under the token scheduler.',
             'documented scope (per-thread / process-wide) per manager.', '4/C17'),
     'C18': ('differential execution against inspect.signature binding and the plain function',
-            'Exploration: generated signatures x call patterns; functor / symbolized class vs direct call with effective arguments.',
+            'Exploration: generated signatures x call patterns; functor / symbolized class vs direct call with effective arguments. Families of callables that share one code object but differ in defaults/annotations, and class histories (stateful __init__ that may raise, detours through placeholders and partial states) compared with a fresh Cls(*effective args).',
             'CPython argument binding is the reference.', '4/C18'),
     'C19': ('audit-hook sentinel (compile/exec) + three-valued AST classification + differential exec',
-            'Exploration: generated programs x permission subsets; forbidden constructs must be refused before any exec event, permitted programs must agree with plain exec.',
+            'Exploration: generated programs x permission subsets; forbidden constructs must be refused before any exec event, permitted programs must agree with plain exec. Runtime errors raised 0..8 calls below the top-level statement must be reported at the top-level statement line (or the innermost program line).',
             'must-gate/free/don\'t-care classification from the property text.', '4/C19'),
     'C20': ('strict HTML tokenizer + metamorphic benign-twin skeleton comparison + canaries',
-            'Exploration: hostile values x view options; output must nest properly, have the same skeleton as the benign twin, contain no canary element/attribute, contain every key/leaf, leave the value unchanged.',
+            'Exploration: hostile values x view options; output must nest properly, have the same skeleton as the benign twin, contain no canary element/attribute, contain every key/leaf, leave the value unchanged. 14% of the cases are histories of interactive control updates (scripts captured and checked by a JS string-literal tokenizer) interleaved with renderings that share the same texts.',
             'html.parser tokenization is the reference.', '4/C20'),
 }
 
